@@ -37,6 +37,7 @@ type batch struct {
 	Vi       int
 	Ref      []byte
 	Tripwire bool // UnmarshalBinary and ReadFrom speak the same format: probe through the watchReader first
+	Careful  bool // answer (flush) after every job instead of once per batch: used to find the job that kills the helper
 	Jobs     []job
 }
 
@@ -258,14 +259,16 @@ func childMain() {
 		if err := dec.Decode(&b); err != nil {
 			return
 		}
-		for i, j := range b.Jobs {
-			fmt.Fprintf(os.Stderr, "@job %d\n", i)
+		for _, j := range b.Jobs {
 			r := execJob(&b, j)
 			if err := enc.Encode(&r); err != nil {
 				return
 			}
-			out.Flush()
+			if b.Careful {
+				out.Flush()
+			}
 		}
+		out.Flush()
 	}
 }
 
@@ -392,6 +395,11 @@ func runJobs(hdr batch, jobs []job) []result {
 		}
 		return res
 	}
+	// Answers normally arrive once per chunk (one write, one read: the worker and its helper do not ping-pong per
+	// job). When the helper dies inside a chunk the answers it had not flushed are lost; the chunk is then
+	// repeated in careful mode (one flushed answer per job), which pins the death on the job that causes it. Jobs
+	// are idempotent, so repeating them is harmless.
+	careful := false
 	for len(res) < len(jobs) {
 		if events >= maxEvents {
 			res = append(res, result{NotRun: true})
@@ -406,36 +414,45 @@ func runJobs(hdr batch, jobs []job) []result {
 		if len(pending) > 64 {
 			pending = pending[:64]
 		}
-		hdr.Jobs = pending
+		hdr.Jobs, hdr.Careful = pending, careful
 		b, err := json.Marshal(&hdr)
 		if err != nil {
 			panic(err)
 		}
 		go func() { _, _ = h.stdin.Write(append(b, '\n')) }()
-		for got := 0; got < len(pending); got++ {
+		got := 0
+		for ; got < len(pending); got++ {
 			// No timeout here: a wall-clock limit would turn machine load into a verdict. A helper that really hangs
 			// blocks this worker until the engine's own budget watchdog reports the worker (with this scenario).
 			line, rerr := h.stdout.ReadBytes('\n')
 			var r result
-			if rerr == nil && json.Unmarshal(line, &r) == nil {
-				if events >= maxEvents {
-					r = result{NotRun: true} // executed by the helper, but beyond the cut-off: not looked at
-				}
-				note(r)
-				res = append(res, r)
-				continue
+			if rerr != nil || json.Unmarshal(line, &r) != nil {
+				break
 			}
-			// the helper died while executing pending[got]
-			h.kill()
-			theHelper = nil
-			r = classifyFatal(h.stderr.take())
 			if events >= maxEvents {
-				r = result{NotRun: true}
+				r = result{NotRun: true} // executed by the helper, but beyond the cut-off: not looked at
 			}
 			note(r)
 			res = append(res, r)
-			break
 		}
+		if got == len(pending) {
+			careful = false
+			continue
+		}
+		// the helper died somewhere in pending[got:]
+		h.kill()
+		theHelper = nil
+		dying := h.stderr.take()
+		if !careful {
+			careful = true // repeat from the first unanswered job, one answer per job
+			continue
+		}
+		r := classifyFatal(dying) // careful mode: pending[got] is the job that kills it
+		if events >= maxEvents {
+			r = result{NotRun: true}
+		}
+		note(r)
+		res = append(res, r)
 	}
 	return res
 }
